@@ -53,7 +53,7 @@ def c02(res, tier, a):
 
 
 def c03(res, tier, a):
-    comps = _components(a, ["kernels", "modules", "traps"])
+    comps = _components(a, ["kernels", "modules", "generated", "traps"])
     with Scratch(slot()) as sc:
         ws.inject(sc)
         drv = ws.Driver(ws.build_driver(sc))
@@ -65,6 +65,9 @@ def c03(res, tier, a):
         if "modules" in comps:
             from checks import et
             cov.update(et.run_module_validity(res, tier, sc, drv))
+        if "generated" in comps:
+            from checks import et
+            cov.update(et.run_generated_accept_set(res, tier, sc, drv))
         if "traps" in comps:
             from checks import et
             cov.update(et.run_trap_freedom(res, tier, sc, drv))
@@ -77,7 +80,7 @@ def c03(res, tier, a):
 
 def c04(res, tier, a):
     from checks import c04 as m
-    comps = _components(a, ["ops", "runtime", "lirwat", "lirts"])
+    comps = _components(a, ["ops", "runtime", "strings", "lirwat", "lirts"])
     with Scratch(slot()) as sc:
         ws.inject(sc)
         drv = ws.Driver(ws.build_driver(sc))
@@ -88,6 +91,8 @@ def c04(res, tier, a):
         if "runtime" in comps:
             cov.update(m.run_runtime(res, tier, sc, drv))
             cov.update(m.run_vec_runtime(res, tier, sc, drv))
+        if "strings" in comps:
+            cov.update(m.run_string_constants(res, tier, sc, drv))
         if "lirwat" in comps:
             from checks import et
             cov.update(et.run_lirwat(res, tier, sc, drv))
